@@ -378,6 +378,17 @@ def eval_on_path(fn, v, path, upto=None):
     return v
 
 
+class ValRef:
+    """Right-hand side of a comparison between two non-constant values."""
+    __slots__ = ("v",)
+
+    def __init__(self, v):
+        self.v = v
+
+    def __repr__(self):
+        return "ValRef(%r)" % (self.v,)
+
+
 _INV = {"eq": "ne", "ne": "eq", "ugt": "ule", "ule": "ugt", "uge": "ult", "ult": "uge",
         "sgt": "sle", "sle": "sgt", "sge": "slt", "slt": "sge"}
 
@@ -414,7 +425,24 @@ def norm_cond(F, v, neg=False):
             if k is None and F.is_null(b):
                 k = 0
             if k is None:
-                return None
+                ka = F.const_int(a)
+                if ka is None and F.is_null(a):
+                    ka = 0
+                if ka is not None:
+                    # constant on the left: swap
+                    sw = {"eq": "eq", "ne": "ne", "ugt": "ult", "ult": "ugt", "uge": "ule", "ule": "uge", "sgt": "slt", "slt": "sgt", "sge": "sle", "sle": "sge"}
+                    pred = sw.get(I.pred)
+                    if pred is None:
+                        return None
+                    if neg:
+                        pred = _INV.get(pred)
+                    return (b, pred, ka)
+                pred = I.pred
+                if neg:
+                    pred = _INV.get(pred)
+                    if pred is None:
+                        return None
+                return (a, pred, ValRef(b))
             A = F.resolve(a)
             # boolean wrapper?  icmp ne/eq (bool-ish), 0
             if k == 0 and I.pred in ("ne", "eq") and isinstance(A, Inst) and _boolish(F, A):
@@ -448,3 +476,160 @@ def _boolish(F, A):
             return True
         return False
     return False
+
+
+def expr_str(F, v, depth=0):
+    """Symbolic rendering of an SSA value in terms of parameters, constants, loads of named struct
+    fields and call results - used to compare conditions between sibling functions."""
+    if depth > 10:
+        return "..."
+    I = F.resolve(v)
+    if isinstance(I, dict):
+        k = I.get("k")
+        if k == "a":
+            return "arg:" + (F.args[I["n"]].get("name") or str(I["n"]))
+        if k == "c":
+            return str(I.get("v", I.get("vs")))
+        if k == "null":
+            return "null"
+        if k == "g":
+            return "@" + I["name"]
+        if k == "ce":
+            return "ce(" + ",".join(expr_str(F, o, depth + 1) for o in I.get("ops", [])) + ")"
+        return k or "?"
+    if I.op in ("bitcast", "zext", "sext", "trunc", "ptrtoint", "inttoptr", "freeze"):
+        return expr_str(F, I.ops[0], depth + 1)
+    if I.op == "call":
+        if (I.callee or "").startswith("llvm.expect"):
+            return expr_str(F, I.ops[0], depth + 1)
+        return "call:%s#%d" % (I.callee, I.id)
+    if I.op == "load":
+        fld = F.field(I.ops[0])
+        if fld:
+            root, names = fld
+            return "load(%s.%s)" % (expr_str(F, {"k": "i", "id": root.id} if isinstance(root, Inst) else root, depth + 1), ".".join(n[1] for n in names))
+        return "load(%s)" % expr_str(F, I.ops[0], depth + 1)
+    if I.op == "getelementptr":
+        return "gep(%s,%s)" % (expr_str(F, I.ops[0], depth + 1), I.raw.get("off"))
+    if I.op == "phi":
+        return "phi#%d" % I.id
+    if I.op == "icmp":
+        return "icmp_%s(%s,%s)" % (I.pred, expr_str(F, I.ops[0], depth + 1), expr_str(F, I.ops[1], depth + 1))
+    return "%s(%s)" % (I.op, ",".join(expr_str(F, o, depth + 1) for o in I.ops))
+
+
+class PathInfo:
+    __slots__ = ("blocks", "facts", "insts", "ret", "retinst")
+
+
+def paths_with_facts(F, max_paths=20000):
+    """All entry->exit block paths (loops cut after one extra visit) with the normalised branch facts
+    taken on each: facts = [(value_ref, pred, const, taken, br_inst, position_in_insts)]."""
+    for path in iter_paths(F, F.entry.id, max_paths=max_paths):
+        P = PathInfo()
+        P.blocks = path
+        P.facts = []
+        P.insts = []
+        for k, b in enumerate(path):
+            B = F.bmap[b]
+            for I in B.insts:
+                P.insts.append(I)
+            T = B.insts[-1]
+            if T.op == "br" and T.raw.get("cond") and k + 1 < len(path):
+                taken_true = T.raw["succ"][0] == path[k + 1]
+                if T.raw["succ"][0] == T.raw["succ"][1]:
+                    continue
+                nc = norm_cond(F, T.ops[0])
+                if nc is None:
+                    P.facts.append((T.ops[0], None, None, taken_true, T, len(P.insts) - 1))
+                else:
+                    val, pred, c = nc
+                    if not taken_true:
+                        pred = _INV.get(pred)
+                    P.facts.append((val, pred, c, True, T, len(P.insts) - 1))
+            elif T.op == "switch" and k + 1 < len(path):
+                nxt = path[k + 1]
+                vals = [cs["v"] for cs in T.raw.get("cases", []) if cs["b"] == nxt]
+                if nxt == T.raw.get("default") or len(vals) != 1:
+                    P.facts.append((T.ops[0], "switch-default", tuple(cs["v"] for cs in T.raw.get("cases", [])), True, T, len(P.insts) - 1))
+                else:
+                    P.facts.append((T.ops[0], "eq", vals[0], True, T, len(P.insts) - 1))
+        R = P.insts[-1]
+        P.retinst = R
+        P.ret = eval_on_path(F, R.ops[0], path) if (R.op == "ret" and R.ops) else None
+        yield P
+
+
+def eval_expr(F, v, leaf, depth=0):
+    """Constant-fold SSA value v given leaf(I_or_ref) -> int or None for inputs.  Returns int or None.
+    Integers are folded at the instruction's bit width (unsigned representation)."""
+    if depth > 40:
+        return None
+    I = F.resolve(v)
+    lv = leaf(I)
+    if lv is not None:
+        return lv
+    if isinstance(I, dict):
+        c = F.const_int(I)
+        if c is not None:
+            bits = I.get("bits", 64)
+            return c & ((1 << bits) - 1)
+        if I.get("k") == "null":
+            return 0
+        return None
+    bits = _bits(I.ty)
+    mask = (1 << bits) - 1 if bits else None
+    if I.op in ("zext", "bitcast", "freeze", "ptrtoint", "inttoptr"):
+        return eval_expr(F, I.ops[0], leaf, depth + 1)
+    if I.op == "trunc":
+        x = eval_expr(F, I.ops[0], leaf, depth + 1)
+        return None if x is None else x & mask
+    if I.op == "sext":
+        x = eval_expr(F, I.ops[0], leaf, depth + 1)
+        sb = _bits(I.raw.get("srcty", "i32"))
+        if x is None or not sb:
+            return None
+        if x >> (sb - 1) & 1:
+            x |= mask & ~((1 << sb) - 1)
+        return x & mask
+    if I.op == "call" and (I.callee or "").startswith("llvm.expect"):
+        return eval_expr(F, I.ops[0], leaf, depth + 1)
+    if I.op in ("and", "or", "xor", "add", "sub", "mul", "shl", "lshr"):
+        a = eval_expr(F, I.ops[0], leaf, depth + 1)
+        b = eval_expr(F, I.ops[1], leaf, depth + 1)
+        if I.op == "and" and (a == 0 or b == 0):
+            return 0
+        if a is None or b is None or mask is None:
+            return None
+        r = {"and": a & b, "or": a | b, "xor": a ^ b, "add": a + b, "sub": a - b, "mul": a * b,
+             "shl": a << (b % bits), "lshr": a >> (b % bits)}[I.op]
+        return r & mask
+    if I.op == "icmp":
+        a = eval_expr(F, I.ops[0], leaf, depth + 1)
+        b = eval_expr(F, I.ops[1], leaf, depth + 1)
+        if a is None or b is None:
+            return None
+        ob = _bits(F.resolve(I.ops[0]).ty if isinstance(F.resolve(I.ops[0]), Inst) else (F.resolve(I.ops[1]).ty if isinstance(F.resolve(I.ops[1]), Inst) else "i64")) or 64
+        if isinstance(F.resolve(I.ops[0]), dict) and F.resolve(I.ops[0]).get("k") == "a":
+            ob = _bits(F.args[F.resolve(I.ops[0])["n"]]["ty"]) or 64
+
+        def sg(x):
+            return x - (1 << ob) if x >> (ob - 1) & 1 else x
+        p = I.pred
+        r = {"eq": a == b, "ne": a != b, "ugt": a > b, "uge": a >= b, "ult": a < b, "ule": a <= b,
+             "sgt": sg(a) > sg(b), "sge": sg(a) >= sg(b), "slt": sg(a) < sg(b), "sle": sg(a) <= sg(b)}.get(p)
+        return None if r is None else int(r)
+    if I.op == "select":
+        c = eval_expr(F, I.ops[0], leaf, depth + 1)
+        if c is None:
+            return None
+        return eval_expr(F, I.ops[1 if c else 2], leaf, depth + 1)
+    return None
+
+
+def _bits(ty):
+    if ty and ty.startswith("i") and ty[1:].isdigit():
+        return int(ty[1:])
+    if ty and ty.endswith("*"):
+        return 64
+    return None
